@@ -52,6 +52,7 @@ CONSTANTS
     StrictTypes,     \* TRUE: no weakly typed input
     UnsetIsError,    \* TRUE: a placeholder naming an unset variable / missing property is an error
     DiscardDefault,  \* "true": what the CLI reader puts in when discard_overflow is absent
+    StdinDefault,    \* TRUE: ... also when the configuration arrives on standard input (FALSE: only for files - wrong)
     ReflPoints       \* struct nodes found by reflection over the real config structs: seq of [v, p]
 
 IdxNames == {"#1", "#2", "#3", "#4", "#5"}
@@ -282,6 +283,26 @@ V3 == [name |-> "V3",
 
 Variants == <<V1, V2, V3>>
 VarByName(n) == CHOOSE i \in 1..Len(Variants) : Variants[i].name = n
+
+\* VALUE CLASSES THAT FOLLOW FROM THE KIND of a leaf (not hand-listed per leaf): every integer option rejects a fractional
+\* number and a number outside the integer range - it must not be cut off or wrapped silently - and accepts an integral
+\* number written as a float (3.0: what a JSON configuration file delivers for 3); every UNSIGNED option rejects a negative
+\* number.  The rendered JSON type is the class's k ("float" / "int"), the option's own kind is the leaf's.
+RECURSIVE KindBadsFrom(_, _)
+KindBadsFrom(V, j) ==
+    IF j > Len(V.leaves) THEN <<>>
+    ELSE LET lf == V.leaves[j]
+             own == IF lf.fl = "fix" \/ lf.k \notin {"int", "uint"} THEN <<>>
+                    ELSE << BadV(<<>>, lf.p, "float", "2.5", "integer: fractional"),
+                            BadV(<<>>, lf.p, "float", "1e30", "integer: out of range"),
+                            OkV(<<>>, lf.p, "float", "3", "3", "integer: integral float") >>
+                         \o (IF lf.k = "uint" THEN << BadV(<<>>, lf.p, "int", "-1", "unsigned: negative"),
+                                                      BadV(<<>>, lf.p, "float", "-0.5", "unsigned: negative fraction") >>
+                                               ELSE <<>>)
+         IN own \o KindBadsFrom(V, j + 1)
+\* all value classes of a variant: the documented constraints (hand-transcribed) and the kind classes (evaluated once)
+BadsSeq == [i \in 1..Len(Variants) |-> Variants[i].bads \o KindBadsFrom(Variants[i], 1)]
+Bads(V) == BadsSeq[VarByName(V.name)]
 Bases == {"full", "min"}
 PoolComponents == {"gun", "ammo", "result", "rps", "startup"}
 
@@ -373,7 +394,10 @@ CasesOf(V) ==
     \cup {MkCase(V, "full", "nullval", V.leaves[j].p, j, "", TRUE) : j \in {i \in 1..n : V.leaves[i].fl # "fix"}}
     \cup {MkCase(V, "full", "nullcomp", <<"pools", pi, comp>>, 0, "", TRUE) : <<pi, comp>> \in {"#1", "#2"} \X PoolComponents}
     \cup {MkCase(V, "full", "wrongtype", V.leaves[j].p, j, "", TRUE) : j \in 1..n}
-    \cup {MkCase(V, "full", "range", V.bads[j].p, j, "", TRUE) : j \in 1..Len(V.bads)}
+    \cup {MkCase(V, "full", "range", Bads(V)[j].p, j, "", TRUE) : j \in 1..Len(Bads(V))}
+    \* the same value classes delivered through a placeholder: ${env:X} is judged like the value written in its place
+    \* (x = 1: a class that follows from the leaf's kind, x = 0: a documented constraint's class - the quick tier samples these)
+    \cup {[MkCase(V, "full", "phrange", Bads(V)[j].p, j, "env", TRUE) EXCEPT !.x = IF j > Len(V.bads) THEN 1 ELSE 0] : j \in 1..Len(Bads(V))}
     \cup {[MkCase(V, "full", "phadv", V.leaves[AdvLeaf(V)].p, AdvLeaf(V), src, TRUE) EXCEPT !.x = x] :
               <<src, x>> \in {sx \in {"property", "env"} \X (1..100) : sx[2] <= AdvCount(sx[1])}}
     \cup {MkCase(V, b, "ph", V.leaves[j].p, j, src, set) :
@@ -381,7 +405,7 @@ CasesOf(V) ==
                                           /\ V.leaves[x[2]].k \in PhKinds
                                           /\ (x[1] = "full" \/ ~\E q \in V.mwmin : IsPrefix(q, V.leaves[x[2]].p))}}
     \cup {MkCase(V, "full", "emb", V.leaves[j].p, j, "env", TRUE) : j \in {i \in 1..n : /\ V.leaves[i].k = "str" /\ V.leaves[i].fl = "opt"
-                                                                                            /\ ~\E b \in 1..Len(V.bads) : V.bads[b].p = V.leaves[i].p}}
+                                                                                            /\ ~\E b \in 1..Len(Bads(V)) : Bads(V)[b].p = V.leaves[i].p}}
     \cup {MkCase(V, "full", "misspell", V.leaves[j].p, j, Misspellings[x].m, TRUE) :
               <<j, x>> \in {jx \in (1..n) \X (1..Len(Misspellings)) : KeyPos(V.leaves[jx[1]].p, Misspellings[jx[2]].k) > 0}}
     \cup {MkCase(V, "full", "emblist", V.leaves[j].p, j, "env", TRUE) : j \in {i \in 1..n : V.leaves[i].k = "strlist"}}
@@ -399,9 +423,10 @@ Delta(c) ==
     IN CASE c.kind = "unknown"   -> [set |-> <<[p |-> c.p \o <<"zzz_unknown_key">>, t |-> c.src, v |-> UnknownValue(c.src)]>>, del |-> <<>>]
          [] c.kind \in {"nullval", "nullcomp"} -> [set |-> <<[p |-> c.p, t |-> "null", v |-> ""]>>, del |-> <<c.p>>]
          [] c.kind = "wrongtype" -> [set |-> <<[p |-> c.p, t |-> WrongT(lf.k), v |-> WrongV(lf.k)]>>, del |-> <<>>]
-         [] c.kind = "range"     -> [set |-> <<[p |-> c.p, t |-> RT(V.bads[c.i].k), v |-> V.bads[c.i].r]>>, del |-> <<>>]
+         [] c.kind = "range"     -> [set |-> <<[p |-> c.p, t |-> RT(Bads(V)[c.i].k), v |-> Bads(V)[c.i].r]>>, del |-> <<>>]
          [] c.kind = "ph"        -> [set |-> <<[p |-> c.p, t |-> "str", v |-> IF c.src = "env" THEN "${env:VERIF_PH}" ELSE "${property:@PROPS@#VERIF_PH}"]>>,
                                      del |-> <<>>]
+         [] c.kind = "phrange"   -> [set |-> <<[p |-> c.p, t |-> "str", v |-> "${env:VERIF_PH}"]>>, del |-> <<>>]
          [] c.kind = "phadv"     -> [set |-> <<[p |-> c.p, t |-> "str", v |-> "@ADVPH@"]>>, del |-> <<>>]   \* driver: ${src:[file#]req}
          [] c.kind = "misspell"  -> LET x == CHOOSE x \in 1..Len(Misspellings) : Misspellings[x].m = c.src
                                         n == KeyPos(c.p, Misspellings[x].k)
@@ -411,7 +436,9 @@ Delta(c) ==
          [] c.kind = "emb"       -> [set |-> <<[p |-> c.p, t |-> "str", v |-> "pre-${env:VERIF_PH}-post"]>>, del |-> <<>>]
          [] c.kind \in {"absent", "dropcomp"} -> [set |-> <<>>, del |-> <<c.p>>]
          [] OTHER                -> [set |-> <<>>, del |-> <<>>]
-PhValue(c) == IF c.kind = "ph" THEN Variants[VarByName(c.v)].leaves[c.i].r ELSE IF c.kind \in {"emb", "emblist"} THEN "mid" ELSE ""
+PhValue(c) == IF c.kind = "ph" THEN Variants[VarByName(c.v)].leaves[c.i].r
+              ELSE IF c.kind = "phrange" THEN Bads(Variants[VarByName(c.v)])[c.i].r
+              ELSE IF c.kind \in {"emb", "emblist"} THEN "mid" ELSE ""
 
 BaseEntries(V, base) ==
     LET ls == SelectSeq([j \in 1..Len(V.leaves) |-> [p |-> V.leaves[j].p, t |-> RT(V.leaves[j].k), v |-> V.leaves[j].r, g |-> Given(V, base, j)]],
@@ -422,10 +449,24 @@ BaseEntries(V, base) ==
 
 ---------------------------------------------------------------------------
 (* the decoder model: Result(c, via) = [out |-> "ok" | "error", vals |-> canonical value of every leaf] *)
-Vias == {"cli", "decode"}
+\* THE INPUT CHANNELS OF THE CLI READER (cli.readConfig) and the file syntaxes viper accepts are a dimension of the cli path:
+\* "cli" = a file named on the command line, .yaml; the others: .yml, no extension (= yaml), .json, .toml, standard input
+\* (`pandora -`, yaml), no argument at all with ./load.yaml, ./load.json or ./config/load.yaml found in the search directories
+\* (a DIFFERENT configuration lies in the search directories that must not be used: ./config/load.yaml when ./load.* is the
+\* case, ./load.yaml when a file is named or standard input is read).  Outcome and every decoded value are the same through
+\* every channel - that is what Outcome / ValueOf say by not looking at the channel.
+CliVias == {"cli", "cli-yml", "cli-noext", "cli-json", "cli-toml", "cli-stdin", "cli-cwd", "cli-cwdjson", "cli-cwdconfig"}
+Vias == {"decode"} \cup CliVias
+IsCli(via) == via \in CliVias
+\* the cases whose cli run is repeated through the other channels (the driver samples them; kind none: always all of them)
+ChannelCase(c) == c.kind \in {"none", "absent", "nullval", "dropcomp", "nullcomp"}
+\* TOML has no null
+Expressible(c, via) == via = "cli-toml" => c.kind \notin {"nullval", "nullcomp"}
+ViasFor(c) == IF ChannelCase(c) THEN {vv \in Vias : Expressible(c, vv)} ELSE {"decode", "cli"}
 
 DocDefault(lf, via) == IF lf.p[Len(lf.p)] = "discard_overflow"
-                       THEN (IF via = "cli" THEN DiscardDefault ELSE "*")     \* the default is put in by the CLI reader
+                       \* the default is put in by the CLI reader - whatever channel the configuration arrives through
+                       THEN (IF IsCli(via) THEN (IF via = "cli-stdin" /\ ~StdinDefault THEN "false" ELSE DiscardDefault) ELSE "*")
                        ELSE lf.d
 
 \* stage 1 - placeholders (VariableInjectHook runs first in the hook chain)
@@ -442,7 +483,19 @@ RequiredMissing(c) ==
     \/ c.kind = "dropcomp"
     \/ c.kind \in {"absent", "nullval"} /\ V.leaves[c.i].fl = "req"
     \/ c.kind = "nullcomp"
-Validation(c) == IF ValidateTags /\ ((c.kind = "range" /\ ~Variants[VarByName(c.v)].bads[c.i].ok) \/ RequiredMissing(c)) THEN "error" ELSE "ok"
+Validation(c) == IF ValidateTags /\ ((c.kind \in {"range", "phrange"} /\ ~Bads(Variants[VarByName(c.v)])[c.i].ok) \/ RequiredMissing(c)) THEN "error" ELSE "ok"
+
+\* WHEN an error is reported.  The sections behind factory-typed fields whose registered constructor builds a component
+\* (every schedule under `rps`; the grpc and grpc/scenario guns) are decoded when the factory is CALLED - by the engine at
+\* pool start (shared rps schedule, gun warm-up) or per instance - not when the configuration is loaded.  An error inside
+\* such a section is an error all the same (the run fails before the pool shoots), only later: "start" instead of "load".
+GunTypeOf(V, pool) == LET hits == {i \in 1..Len(V.types) : V.types[i].p = <<"pools", pool, "gun", "type">>}
+                      IN IF hits = {} THEN "" ELSE V.types[CHOOSE i \in hits : TRUE].v
+LazyRoots(V) == {<<"pools", pool, "rps">> : pool \in {"#1", "#2"}}
+                \cup {<<"pools", pool, "gun">> : pool \in {pl \in {"#1", "#2"} : GunTypeOf(V, pl) \in {"grpc", "grpc/scenario"}}}
+TouchOf(c) == IF c.kind = "unknown" THEN c.p \o <<"zzz_unknown_key">> ELSE c.p
+InLazy(c) == \E q \in LazyRoots(Variants[VarByName(c.v)]) : IsPrefix(q, TouchOf(c)) /\ Len(TouchOf(c)) > Len(q)
+ErrStage(c) == IF InLazy(c) THEN "start" ELSE "load"
 
 Stages == <<"subst", "types", "unused", "validate">>
 StageOut(c, s) == CASE s = "subst" -> Substitute(c) [] s = "types" -> TypedDecode(c)
@@ -454,7 +507,7 @@ ValueOf(c, via, V, j) ==
     IF c.kind \in {"absent", "nullval"} /\ IsPrefix(c.p, lf.p) THEN DocDefault(lf, via)
     ELSE IF c.kind = "ph" /\ c.i = j THEN lf.f
     ELSE IF c.kind = "phadv" /\ c.i = j THEN AdvLookup(c.src, c.x).v
-    ELSE IF c.kind = "range" /\ c.p = lf.p THEN V.bads[c.i].v
+    ELSE IF c.kind \in {"range", "phrange"} /\ c.p = lf.p THEN Bads(V)[c.i].v
     ELSE IF c.kind = "emb" /\ c.i = j THEN "pre-mid-post"
     ELSE IF c.kind = "emblist" /\ c.i = j THEN "[User-Agent: mid]|[X-Other: y]"
     ELSE IF c.base = "min" /\ \E q \in V.mwmin : IsPrefix(q, lf.p) THEN "*"      \* the list element does not exist at all
@@ -469,7 +522,7 @@ Matches(got, want) == want = "*" \/ got = want
 VARIABLES cs, via, stage, err
 vars == <<cs, via, stage, err>>
 
-Init == cs \in AllCases /\ via \in Vias /\ stage = 0 /\ err = FALSE
+Init == cs \in AllCases /\ via \in ViasFor(cs) /\ stage = 0 /\ err = FALSE
 Advance == /\ stage < Len(Stages)
            /\ stage' = stage + 1
            /\ err' = (err \/ StageOut(cs, Stages[stage + 1]) = "error")
@@ -486,7 +539,7 @@ Strict == Done /\ cs.kind \in {"unknown", "misspell"} => err
 \* a wrongly typed value is an error
 Typed == Done /\ cs.kind = "wrongtype" => err
 \* a value violating a documented constraint is an error; so is leaving out something required
-Constrained == Done /\ (\/ (cs.kind = "range" /\ ~TheV.bads[cs.i].ok) \/ cs.kind = "dropcomp"
+Constrained == Done /\ (\/ (cs.kind \in {"range", "phrange"} /\ ~Bads(TheV)[cs.i].ok) \/ cs.kind = "dropcomp"
                          \/ cs.kind = "nullcomp" \/ (cs.kind \in {"absent", "nullval"} /\ TheV.leaves[cs.i].fl = "req")) => err
 \* a placeholder naming an unset variable / missing property is an error; a set one is not
 Placeholders == /\ (Done /\ cs.kind \in {"ph", "emb", "emblist"} => (err <=> ~cs.set))
@@ -499,7 +552,7 @@ Placeholders == /\ (Done /\ cs.kind \in {"ph", "emb", "emblist"} => (err <=> ~cs
                         (err <=> ~\E i \in 1..Len(EnvSets) : EnvSets[i].n = AdvReq("env", cs.x)))
 \* nothing else fails
 NoSpuriousError == Done /\ (\/ cs.kind = "none" \/ (cs.kind \in {"absent", "nullval"} /\ TheV.leaves[cs.i].fl = "opt")
-                             \/ (cs.kind = "range" /\ TheV.bads[cs.i].ok)) => ~err        \* boundary values inside the constraint
+                             \/ (cs.kind \in {"range", "phrange"} /\ Bads(TheV)[cs.i].ok)) => ~err        \* boundary values inside the constraint
 \* options that are not given keep the documented default (discard_overflow: on, through the CLI reader); given ones are kept
 DefaultsKept == Done /\ ~err =>
     \A j \in 1..Len(TheV.leaves) :
@@ -509,11 +562,11 @@ DefaultsKept == Done /\ ~err =>
                      /\ (cs.base = "full" \/ ~\E q \in TheV.mwmin : IsPrefix(q, lf.p))
             v == ValueOf(cs, via, TheV, j)
         IN IF cs.kind = "phadv" /\ cs.i = j THEN TRUE                               \* see Placeholders
-           ELSE IF cs.kind = "range" /\ cs.p = lf.p THEN v = TheV.bads[cs.i].v      \* accepted boundary value is kept
+           ELSE IF cs.kind \in {"range", "phrange"} /\ cs.p = lf.p THEN v = Bads(TheV)[cs.i].v      \* accepted boundary value is kept
            ELSE IF given THEN v = (CASE cs.kind = "emb" /\ cs.i = j -> "pre-mid-post"
                                 [] cs.kind = "emblist" /\ cs.i = j -> "[User-Agent: mid]|[X-Other: y]"
                                 [] OTHER -> lf.f)
            ELSE IF cs.base = "min" /\ \E q \in TheV.mwmin : IsPrefix(q, lf.p) THEN TRUE
-           ELSE IF lf.p[Len(lf.p)] = "discard_overflow" THEN (via = "cli" => v = "true")
+           ELSE IF lf.p[Len(lf.p)] = "discard_overflow" THEN (IsCli(via) => v = "true")    \* every input channel
            ELSE v = lf.d
 =============================================================================
